@@ -81,6 +81,9 @@ def judge(sc, obs, cfg):
             if ob.get("r") != "ok" or ob.get("val") != last_put["v"]:
                 return (i, "the key just written reads %s / %s" % (ob.get("r"), ob.get("val")))
         elif op["op"] == "stats":
+            mm = dmaplib.mirror_lengths(ob, cfg.get("replicas", 1), cfg.get("members", 1))
+            if mm:
+                return (i, "after a Put with eviction: " + mm)
             owned = ob["owned"]
             live = [s for s in ob["stats"] if s["kind"] == "p"]
             for s, own in zip(live, owned):
